@@ -19,7 +19,7 @@ def _owners():
         _OWN['dig'] = c09.check
         for op in ('aead_enc', 'aead_dec', 'aead_inc'):
             _OWN[op] = c06.check
-        for op in ('hkdf_extract', 'hkdf_expand', 'pbkdf2', 'scrypt', 'scrypt_big', 'pbkdf2_big', 'scrypt_params'):
+        for op in ('hkdf_extract', 'hkdf_expand', 'pbkdf2', 'pbkdf2_twice', 'scrypt', 'scrypt_big', 'pbkdf2_big', 'scrypt_params'):
             _OWN[op] = c10.check
         _OWN['argon2'] = c11.check
         _OWN['argon2b'] = c11.check
@@ -58,6 +58,6 @@ def check_any(line, toks):
     fn = _owners().get(op)
     if fn is None:
         raise KeyError('no spec checker for op %s' % op)
-    if op in ('hh', 'sc', 'drg', 'mac', 'dig', 'aead_enc', 'aead_dec', 'aead_inc', 'hkdf_extract', 'hkdf_expand', 'pbkdf2', 'scrypt', 'scrypt_big', 'pbkdf2_big', 'scrypt_params', 'argon2', 'argon2b', 'argon2_accept'):
+    if op in ('hh', 'sc', 'drg', 'mac', 'dig', 'aead_enc', 'aead_dec', 'aead_inc', 'hkdf_extract', 'hkdf_expand', 'pbkdf2', 'pbkdf2_twice', 'scrypt', 'scrypt_big', 'pbkdf2_big', 'scrypt_params', 'argon2', 'argon2b', 'argon2_accept'):
         return fn(body, toks)
     return fn(line, toks)
